@@ -25,6 +25,54 @@ func TestC02(t *testing.T) {
 	opsSuite(t, rec)
 	// marshal operations into two messages from one struct value, then adds on each (see C18)
 	gfan := genCtx(t)
+	rec.Suite("marshal-after-load", rec.N(8, 400), func(c *ev.Case) { marshalAfterLoad(c, c.I%2) })
+	// values handed to the API as sub-slices of one buffer (a relay that cuts the payloads out of
+	// what it received): the image is the reference image and the buffer is left as it was
+	rec.Suite("payloads-sliced-from-one-buffer", rec.N(600, 60000), func(c *ev.Case) {
+		r := c.R
+		n := 2 + r.IntN(5)
+		buf := make([]byte, 0, 512)
+		var spans [][2]int
+		for i := 0; i < n; i++ {
+			l := r.IntN(23)
+			start := len(buf)
+			for k := 0; k < l; k++ {
+				buf = append(buf, byte(0x41+i))
+			}
+			spans = append(spans, [2]int{start, len(buf)})
+		}
+		orig := append([]byte(nil), buf...)
+		m := diam.NewMessage(8388000, diam.RequestFlag, 0, 1, 2, gfan.Parser)
+		var nodes []*refcodec.Node
+		for i, sp := range spans {
+			v := buf[sp[0]:sp[1]] // capacity runs on into the following payloads
+			switch (c.I + i) % 3 {
+			case 0:
+				m.NewAVP(0x00E10000+uint32(i), 0, 0, datatype.Unknown(v))
+				nodes = append(nodes, &refcodec.Node{Code: 0x00E10000 + uint32(i), Kind: refcodec.Unknown, B: append([]byte(nil), orig[sp[0]:sp[1]]...)})
+			case 1:
+				m.NewAVP(9001, 0x40, 0, datatype.OctetString(v))
+				nodes = append(nodes, &refcodec.Node{Code: 9001, Flags: 0x40, Kind: refcodec.OctetString, B: append([]byte(nil), orig[sp[0]:sp[1]]...)})
+			default:
+				m.NewAVP(0x00E10100+uint32(i), 0x80, 4242, datatype.Unknown(v))
+				nodes = append(nodes, &refcodec.Node{Code: 0x00E10100 + uint32(i), Flags: 0x80, Vendor: 4242, Kind: refcodec.Unknown, B: append([]byte(nil), orig[sp[0]:sp[1]]...)})
+			}
+		}
+		c.Class("sliced-payloads/n=%d", n)
+		want := refcodec.EncodeMessage(refcodec.Header{Version: 1, Flags: 0x80, Code: 8388000, HopByHop: 1, EndToEnd: 2}, nodes)
+		for round := 0; round < 2; round++ {
+			got, err := m.Serialize()
+			if err != nil || !bytes.Equal(got, want) {
+				c.Fail(ev.Sig{"op": "sliced-payloads", "what": "image"}, want, nil, "a message whose opaque payloads are sub-slices of one buffer: Serialize (round %d) err=%v, image differs from the reference at byte %d", round, err, firstDiff(got, want))
+				return
+			}
+			if !bytes.Equal(buf, orig) {
+				c.Fail(ev.Sig{"op": "sliced-payloads", "what": "caller-buffer"}, nil, nil, "serialising a message wrote into the caller's buffer behind a payload (first difference at byte %d of %d)", firstDiff(buf, orig), len(orig))
+				return
+			}
+		}
+		c.Event("api_built", 1)
+	})
 	rec.Suite("marshal-fan-out", rec.N(300, 30000), func(c *ev.Case) { fanOutRound(c, gfan) })
 	if rec.Race() {
 		// marshal operations from several goroutines at once, on a struct type that is used for
